@@ -104,6 +104,10 @@ def _build(d):
                          d.choice([0, 1, -3, 2.5, 100, True, 'text', 7.0])])
     if d.pick(4) == 0:
         hist = [['eval', c] for c in model['order'] + sorted(errs)] + hist
+    # the same model object is persisted MORE THAN ONCE: earlier writes at
+    # random points of the history (only the last file is restored)
+    for _ in range(d.pick(3)):
+        hist.insert(d.pick(len(hist) + 1), ['persist', d.choice(EXTS)])
     post = [[d.choice(sorted(model['inputs'])),
              d.choice([0, 1, -3, 2.5, 100, 7.0])] for _ in range(d.pick(3))]
     return {'model': model, 'extras': extras, 'errs': errs, 'names': names,
@@ -278,6 +282,14 @@ def judge(case):
                         ev.evaluate(op[1])
                     except Exception:  # noqa: BLE001
                         pass
+                elif op[0] == 'persist':
+                    early = os.path.join(tmpdir(), 'early%d%s' % (
+                        os.getpid(), op[1]))
+                    try:
+                        m.persist_to_json_file(early)
+                    finally:
+                        if os.path.exists(early):
+                            os.remove(early)
                 else:
                     ev.set_cell_value(op[1], op[2])
     except Exception as err:  # noqa: BLE001
